@@ -75,6 +75,15 @@ def escapes(c: Closure, p: Path) -> Optional[str]:
     return None
 
 
+def run_in_place(c: Closure, p: Path) -> bool:
+    """The closure is a thunk: it does not leave the invocation that created it and that invocation (a helper it was handed to,
+    inlined) called it, so its body has been analysed where it ran - under the handlers that were active there."""
+    if escapes(c, p) is not None:
+        return False
+    needle = ('closure', c.qual, c.cid)
+    return any(e.kind == 'call' and (e.d.get('closure') is c or freeze(e.func) == needle) for e in p.events)
+
+
 def lambda_bodies_charged(chk: Check, R: str) -> None:
     F = chk.facts
     for owner, c, p in eval_closures(chk):
@@ -423,16 +432,25 @@ def conversion_of(F, e: Event, paths: List[Path], exc_names: List[str]) -> Tuple
         for types, h in descr:
             if catches(F, types, exc_names):
                 outcomes = set()
+                cont_returns = set()
                 for p in paths:
                     for x in p.events:
                         if x.kind == 'exc_edge' and x.d.get('handler') is h:
                             rc = raised_class(F, p.outcome[1]) if p.outcome[0] == 'raise' else None
+                            if p.outcome[0] != 'raise':
+                                cont_returns.add(freeze(p.outcome[1]))
                             outcomes.add('ParserError' if (p.outcome[0] == 'raise' and is_parser_error(F, rc)) else
                                          ('raises %s' % show(p.outcome[1]) if p.outcome[0] == 'raise' else 'continues'))
                 if outcomes == {'ParserError'}:
                     return ('converted', 'except %s -> ParserError' % '/'.join(q for _, q in types))
                 if not outcomes:
                     return ('other', 'handler found but its paths were not enumerated')
+                if outcomes == {'continues'} and e.fn in F.functions:
+                    # get-with-default: the handler hands back the caller's default (a parameter that has one) and nothing else
+                    a_ = F.functions[e.fn].node.args
+                    defaulted = {x.arg for x in a_.args[len(a_.args) - len(a_.defaults):]} | {x.arg for x, d_ in zip(a_.kwonlyargs, a_.kw_defaults) if d_ is not None}
+                    if cont_returns and all(isinstance(r_, tuple) and r_[:1] == ('param',) and r_[1] in defaulted for r_ in cont_returns):
+                        return ('defaulted', 'except %s -> the caller\'s default' % '/'.join(q for _, q in types))
                 return ('swallowed' if 'continues' in outcomes else 'other',
                         'handler for %s %s' % ('/'.join(q for _, q in types), ', '.join(sorted(outcomes))))
     return ('unguarded', 'no enclosing handler catches %s' % '/'.join(exc_names))
@@ -612,3 +630,49 @@ def default_factory_dicts(chk) -> list:
                     break
     F.__dict__['_default_factory_dicts'] = out
     return out
+
+
+def handlers_catching(chk, target: str):
+    """Every (path, exc_edge) of the code that runs during an evaluation whose handler receives an exception of the package
+    class `target` raised in the guarded body: the handler's types include it and no earlier handler of the same try does.
+    Yields (key, event, path, unit, engine)."""
+    from .c02 import entry_units
+    from ..symexec import closure_paths, SymExec
+    from .. import opmodel as om
+    F = chk.facts
+    for label, fi, _ in entry_units(chk):
+        if fi.module.name.endswith(('.lexer', '.rules')) or label.endswith(('.parse', '.list_names')):
+            continue          # lexing/parsing runs no program
+        se = SymExec(F, fi)
+        paths = se.run()
+        allp = list(paths)
+        for c in om.all_closures(paths):
+            allp += closure_paths(F, fi, c)
+        for p in allp:
+            for e in p.events:
+                if e.kind != 'exc_edge':
+                    continue
+                if not any(se.exc_subclass(('cls', target), t) is True for t in e.d['types']):
+                    continue
+                if any(se.exc_subclass(('cls', target), t) is True for t in e.d.get('earlier', ())):
+                    continue        # an earlier clause of the same try takes it
+                key = '%s :: except %s (line %d)' % (e.fn, '/'.join(q for _, q in e.d['types']), e.d['handler'].lineno)
+                yield key, e, p, fi, se
+
+
+def memo_wrapped(F, q: str):
+    """For a module-level NAME = functools.lru_cache(...)(g) / functools.cache(g): the resolution of g, else None."""
+    import ast as _ast
+    from ..facts import norm as _norm
+    mod_, _, var_ = q.rpartition('.')
+    m_ = F.modules.get(mod_)
+    vals_ = m_.assigns.get(var_, []) if m_ is not None else []
+    if len(vals_) == 1 and isinstance(vals_[0], _ast.Call) and len(vals_[0].args) == 1:
+        v_ = vals_[0]
+        f_ = v_.func
+        if (not isinstance(f_, _ast.Call) and _norm(f_).rsplit('.', 1)[-1] in ('lru_cache', 'cache')) or \
+                (isinstance(f_, _ast.Call) and _norm(f_.func).rsplit('.', 1)[-1] in ('lru_cache', 'cache')):
+            if isinstance(v_.args[0], _ast.Lambda):
+                return ('fn', q + '.<lambda>')
+            return F.resolve_expr(m_, v_.args[0])
+    return None
